@@ -18,6 +18,10 @@ REPLAY_DIR = os.path.join(common.VERIF_DIR, "replays")
 EVIDENCE_DIR = os.path.join(common.VERIF_DIR, "evidence") if not os.environ.get("HSVERIF_REPO_SRC") \
     else os.path.join("/tmp", "hsverif-scratch-evidence")
 PROP_IDS = ["C%02d" % i for i in range(1, 21)]
+# thorough tier: an additional coverage-guided campaign (atheris / libFuzzer driving the property's own Hypothesis strategy)
+FUZZ_PROPS = {"C03", "C04", "C05", "C06", "C11", "C17", "C19"}
+FUZZ_RUNS_PER_SHARD = int(os.environ.get("HSVERIF_FUZZ_RUNS") or 12000)
+FUZZ_SECONDS = float(os.environ.get("HSVERIF_FUZZ_SECONDS") or 420)
 
 
 class Violation(Exception):
@@ -480,12 +484,17 @@ def orchestrate(prop_id, tier, seed, nshards=None, budget=None):
             s = results[sh].get("samples", [])
             if i < len(s) and len(merged["samples"]) < 6:
                 merged["samples"].append(s[i])
+    extra = None
+    if tier == "thorough" and prop_id in FUZZ_PROPS and violation is None and not errors:
+        extra, fviol, ferrors = fuzz_campaign(prop_id, tier, seed, nshards, base, env, merged)
+        violation = fviol
+        errors = ferrors
     wall = time.time() - t0
     if errors and violation is None:
         for sh, e in errors[:2]:
             sys.stderr.write(f"[harness error in shard {sh}]\n{e}\n")
         return 2
-    write_evidence(prop_id, mod, tier, seed, merged, wall, 1 if violation else 0)
+    write_evidence(prop_id, mod, tier, seed, merged, wall, 1 if violation else 0, extra=extra)
     if violation is not None:
         path = write_replay(prop_id, violation)
         print(f"VIOLATION property={prop_id} replay={path}")
@@ -497,6 +506,50 @@ def orchestrate(prop_id, tier, seed, nshards=None, budget=None):
     return 0
 
 
+def fuzz_campaign(prop_id, tier, seed, nshards, base, env, merged):
+    """Coverage-guided campaign after the Hypothesis part (thorough tier).  Returns (evidence extra, violation, errors)."""
+    from . import fuzz
+    if not fuzz.available():
+        return {"coverage_guided_campaign": "skipped: atheris not importable (setup_cmd installs it into /verif/.deps)"}, None, []
+    procs = []
+    for sh in range(nshards):
+        out = os.path.join(base, f"fuzz{sh}.json")
+        cmd = [sys.executable, os.path.join(common.VERIF_DIR, "check.py"), prop_id, "--tier", tier, "--seed", str(seed),
+               "--fuzz-worker", str(sh), str(nshards), out]
+        procs.append((sh, out, subprocess.Popen(cmd, env=env, cwd=common.VERIF_DIR, start_new_session=True,
+                                                stdout=subprocess.DEVNULL, stderr=subprocess.DEVNULL)))
+    t_end = time.time() + FUZZ_SECONDS + 240
+    violation, errors, execs, evals = None, [], 0, 0
+    for sh, out, p in procs:
+        try:
+            p.wait(timeout=max(1, t_end - time.time()))
+        except subprocess.TimeoutExpired:
+            _kill_group(p)
+            errors.append((sh, "fuzz worker exceeded its time limit"))
+            continue
+        if not os.path.isfile(out):
+            errors.append((sh, f"fuzz worker exited {p.returncode} without a result"))
+            continue
+        with open(out) as f:
+            r = json.load(f)
+        execs += r.get("fuzz_execs", 0)
+        evals += r.get("evaluations", 0)
+        merged["evaluations"] += r.get("evaluations", 0)
+        merged["keys"].update(r.get("keys", []))
+        for k, v in r.get("excluded", {}).items():
+            merged["excluded"][k] = merged["excluded"].get(k, 0) + v
+        if r.get("error"):
+            errors.append((sh, r["error"]))
+        if r.get("violation") and violation is None:
+            violation = r["violation"]
+    for sh, out, p in procs:
+        _kill_group(p)
+    extra = {"coverage_guided_campaign": {"engine": "atheris 3.1 (libFuzzer) mutating the input buffer of the property's Hypothesis "
+                                                    "strategy (hypothesis fuzz_one_input); hashstore/filehashstore.py instrumented",
+                                          "shards": nshards, "libfuzzer_executions": execs, "cases_run_by_the_oracle": evals}}
+    return extra, violation, errors
+
+
 def main(argv=None):
     import argparse
     ap = argparse.ArgumentParser()
@@ -506,12 +559,21 @@ def main(argv=None):
     ap.add_argument("--replay")
     ap.add_argument("--shards", type=int)
     ap.add_argument("--worker", nargs=3)
+    ap.add_argument("--fuzz-worker", nargs=3)
     a = ap.parse_args(argv)
     seed = a.seed if a.seed is not None else int(os.environ.get("VERIF_SEED") or 1)
     if a.tier not in ("quick", "thorough"):
         a.tier = "quick"
     if a.worker:
         worker_main(a.prop, a.tier, seed, int(a.worker[0]), int(a.worker[1]), a.worker[2])
+        return 0
+    if a.fuzz_worker:
+        from . import fuzz
+        fuzz.available()
+        if os.getpgrp() == os.getpid():
+            _die_with_parent()
+        fuzz.worker_main(a.prop, a.tier, seed, int(a.fuzz_worker[0]), int(a.fuzz_worker[1]), a.fuzz_worker[2],
+                         FUZZ_RUNS_PER_SHARD, FUZZ_SECONDS)
         return 0
     if os.environ.get("PYTHONHASHSEED") != "0":
         os.environ["PYTHONHASHSEED"] = "0"
